@@ -508,5 +508,5 @@ def run(ctx):
     for _ in range(ctx.scale(400, 8000)):
         which = ['SO2.SE2', 'SE3.SO3', 'SE2.SE3'][rng.integers(3)]
         mk = {'SO2.SE2': lambda: gen.so2(rng), 'SE3.SO3': lambda: gen.so3(rng), 'SE2.SE3': lambda: gen.se2(rng)}[which]
-        multi = [mk() for _ in range(int(rng.integers(2, 5)))] if rng.random() < 0.5 else []
+        multi = [mk() for _ in range(int(rng.integers(2, 8)))] if rng.random() < 0.5 else []
         drive(RUNNERS, ctx, 'embed', dict(which=which, A=mk(), B=mk(), pt=gen.vec(rng, 3, 1e-3, 1e3), multi=multi))
